@@ -987,6 +987,8 @@ def check_C12(chk):
     c12b(chk)
     c12c(chk)
     c12d(chk)
+    import rules_io
+    rules_io.buffered_input_capacity(chk, "C12.d")
     for r, n in (("C12.a", 7), ("C12.b", 3), ("C12.c", 3), ("C12.d", 9)):
         chk.floor(r, n)
 
